@@ -17,8 +17,8 @@ enum Kind { N_SEQ = 0, N_PAR, N_IFELSE, N_IFTHEN, N_SWITCH, N_LOOP, N_LOOPIF, N_
 enum Outcome { O_SUCC = 0, O_FAIL, O_FLIP, O_NEVER, O_BLOCK };
 enum St { IDLE = 0, RUNNING, PAUSED, FINISHED, STOPPED };
 
-struct InSpec { int kind; long mode, a, b, tmo; std::vector<int> ch; };
-struct Ctl { long at_ms; int what; bool glued = false; };        // 0 pause 1 resume 2 stop 3 reset+start
+struct InSpec { int kind; long mode, a, b, tmo; std::vector<int> ch; int impl = 0; };   // impl (leaves): 0 probe leaf, 1 SleepAction, 2 FunctionAction
+struct Ctl { long at_ms; int what; bool glued = false; };        // 0 pause 1 resume 2 stop 3 reset+start (tree at rest) 4 reset+start (at any moment)
 
 struct LeafStart { int leaf; long n; long t; bool operator==(const LeafStart &o) const { return leaf == o.leaf && n == o.n && t == o.t; } };
 struct RunRec {
@@ -38,6 +38,7 @@ class Model {
     std::map<int, bool> fin;                 // parallel: finished children (slot -> result)
     long starts = 0; bool result_now = true; bool pending = false;
     long leaf_due = -1, tmo_due = -1;
+    int impl = 0; long leaf_remain = 0; int leaf_pauses = 0;      // a SleepAction leaf keeps the remaining time across pause/resume, a probe leaf starts its delay again
     unsigned long finish_notif = 0, block_notif = 0;
   };
   struct Notif { unsigned long id; int to; int from; int what; bool ok; std::string msg; bool direct; };   // what: 0 finish 1 block 2 replay(stored)
@@ -59,7 +60,7 @@ class Model {
   int build(const std::vector<InSpec> &spec, int i, int parent) {
     const InSpec &s = spec[(size_t)i];
     int me = (int)nd.size();
-    { Node n; n.kind = s.kind; n.mode = s.mode; n.a = s.a; n.b = s.b; n.tmo = s.tmo; n.spec = i; n.parent = parent; nd.push_back(n); }
+    { Node n; n.kind = s.kind; n.mode = s.mode; n.a = s.a; n.b = s.b; n.tmo = s.tmo; n.spec = i; n.parent = parent; n.impl = s.impl; nd.push_back(n); }
     auto child = [&](size_t k) -> int { return k < s.ch.size() ? build(spec, s.ch[k], me) : pad(me); };
     std::vector<int> ch;
     switch (s.kind) {
@@ -80,6 +81,7 @@ class Model {
   bool underway(int n) const { return nd[(size_t)n].st == RUNNING || nd[(size_t)n].st == PAUSED; }
   int slot_of(int p, int c) const { const Node &P = nd[(size_t)p]; for (size_t k = 0; k < P.ch.size(); ++k) if (P.ch[k] == c) return (int)k; return -1; }
   bool serial(int n) const { return nd[(size_t)n].kind != N_PAR && nd[(size_t)n].kind != N_LEAF; }
+  void drop_replays(int n) { for (auto it = q.begin(); it != q.end();) { if (it->what == 2 && it->to == n) it = q.erase(it); else ++it; } }
   void cancel_notifs(int n) {
     Node &N = nd[(size_t)n];
     for (auto it = q.begin(); it != q.end();) { if ((N.finish_notif && it->id == N.finish_notif) || (N.block_notif && it->id == N.block_notif)) it = q.erase(it); else ++it; }
@@ -104,7 +106,15 @@ class Model {
     Node &N = nd[(size_t)n];
     if (N.st == PAUSED) return true;
     if (N.st != RUNNING) return false;
-    if (N.kind == N_LEAF) N.leaf_due = -1;
+    if (N.kind == N_LEAF) {
+      if (N.impl == 1 && N.leaf_due >= 0) {
+        N.leaf_remain = N.leaf_due - now;
+        // SleepAction measures the remaining time from the deadline computed at start, also after it has been resumed once:
+        // how long a sleep that is paused twice lasts is nothing C17 speaks about, so no prediction is made
+        if (++N.leaf_pauses > 1) set_ambiguous("a SleepAction leaf is paused for the second time in one run");
+      }
+      N.leaf_due = -1;
+    }
     else if (N.kind == N_PAR) { for (int c : N.ch) pause(c); }
     else if (N.cur >= 0) pause(N.cur);
     if (nd[(size_t)n].st == RUNNING) { nd[(size_t)n].tmo_due = -1; nd[(size_t)n].st = PAUSED; }
@@ -114,7 +124,7 @@ class Model {
     if (nd[(size_t)n].st == RUNNING) return true;
     if (nd[(size_t)n].st != PAUSED) return false;
     int kind = nd[(size_t)n].kind;
-    if (kind == N_LEAF) { Node &N = nd[(size_t)n]; if (N.mode != O_NEVER) N.leaf_due = now + std::max(1L, N.tmo); }
+    if (kind == N_LEAF) { Node &N = nd[(size_t)n]; if (N.mode != O_NEVER) N.leaf_due = now + (N.impl == 1 ? N.leaf_remain : std::max(1L, N.tmo)); }
     else if (kind == N_PAR) {
       bool done = false;
       { Node &N = nd[(size_t)n]; long m = N.mode % 3; for (auto &it : N.fin) if ((m == 2 && it.second) || (m == 1 && !it.second)) { done = true; break; } }
@@ -137,7 +147,7 @@ class Model {
     int kind = nd[(size_t)n].kind;
     if (kind == N_LEAF) { nd[(size_t)n].leaf_due = -1; nd[(size_t)n].pending = false; }
     else if (kind == N_PAR) { std::vector<int> ch = nd[(size_t)n].ch; for (int c : ch) stop(c); }
-    else { int c = nd[(size_t)n].cur; if (c >= 0) { stop(c); nd[(size_t)n].cur = -1; } nd[(size_t)n].has_stored = false; }
+    else { int c = nd[(size_t)n].cur; if (c >= 0) { stop(c); nd[(size_t)n].cur = -1; } nd[(size_t)n].has_stored = false; drop_replays(n); }
     return true;
   }
   bool finish(int n, bool ok, const std::string &msg) {
@@ -145,7 +155,7 @@ class Model {
     { Node &N = nd[(size_t)n]; N.st = FINISHED; N.tmo_due = -1; }
     int kind = nd[(size_t)n].kind;
     if (kind == N_PAR) { std::vector<int> ch = nd[(size_t)n].ch; for (int c : ch) stop(c); }
-    else if (kind != N_LEAF) { int c = nd[(size_t)n].cur; if (c >= 0) { stop(c); nd[(size_t)n].cur = -1; } nd[(size_t)n].has_stored = false; }
+    else if (kind != N_LEAF) { int c = nd[(size_t)n].cur; if (c >= 0) { stop(c); nd[(size_t)n].cur = -1; } nd[(size_t)n].has_stored = false; drop_replays(n); }
     post(n, 0, ok, msg);
     return true;
   }
@@ -163,6 +173,7 @@ class Model {
       std::vector<int> ch = nd[(size_t)n].ch;
       for (int c : ch) reset(c);
       Node &N = nd[(size_t)n]; N.idx = 0; N.fin.clear(); N.cur = -1; N.has_stored = false;
+      if (kind != N_PAR) drop_replays(n);
     }
     nd[(size_t)n].tmo_due = -1;
     cancel_notifs(n);
@@ -198,7 +209,8 @@ class Model {
         N.pending = true;
         if (N.mode == O_NEVER) return;
         if (N.mode == O_BLOCK && N.starts == 1) { block(n, "probe blocks"); return; }
-        if (N.tmo <= 0) { N.pending = false; finish(n, N.result_now, "case:c" + std::to_string(N.starts % 2)); }
+        N.leaf_pauses = 0;
+        if (N.tmo <= 0) { N.pending = false; finish(n, N.result_now, N.impl == 2 ? std::string("FunctionAction") : "case:c" + std::to_string(N.starts % 2)); }
         else N.leaf_due = now + std::max(1L, N.tmo);
         return;
       }
@@ -309,7 +321,7 @@ class Model {
     if (what == 0) { if (nd[0].st == RUNNING) pause(0); }
     else if (what == 1) { if (nd[0].st == PAUSED) resume(0); }
     else if (what == 2) { if (underway(0)) { stop(0); stopped = true; } }
-    else if (!second && !underway(0) && nd[0].st != IDLE) { reset(0); second = true; cur_run = 1; leaf_starts = 0; stopped = false; start(0); }
+    else if (!second && (what == 4 || !underway(0)) && nd[0].st != IDLE) { reset(0); second = true; cur_run = 1; leaf_starts = 0; stopped = false; start(0); }
   }
   // returns false when the model cannot predict this plan
   bool simulate(const std::vector<Ctl> &ctls, long end_ms) {
@@ -334,7 +346,7 @@ class Model {
       if (t2 < 0 || (t1 >= 0 && t1 < t2)) {
         if (ties > 1) { set_ambiguous("two timers share one deadline"); break; }
         now = t1; last_activity = now;
-        if (is_leaf) { Node &N = nd[(size_t)who]; N.leaf_due = -1; N.pending = false; finish(who, N.result_now, "case:c" + std::to_string(N.starts % 2)); }
+        if (is_leaf) { Node &N = nd[(size_t)who]; N.leaf_due = -1; N.pending = false; finish(who, N.result_now, N.impl == 1 ? std::string("SleepAction") : "case:c" + std::to_string(N.starts % 2)); }
         else { nd[(size_t)who].tmo_due = -1; finish(who, false, "ActionTimeout"); }
         drain();
       } else {
